@@ -86,7 +86,9 @@ def gen(ctx, force_mode=None):
         # Equal Shares ignores the cost of an initial allocation (its quantifier is "initial allocation empty"),
         # so it can only be the FIRST rule of a completion sequence
         cfg["rules"] = [rng.choice(specs)] + [rng.choice(specs[1:]) for _ in range(k - 1)]
-        if k >= 2 and rng.random() < 0.3:
+        if k >= 2 and rng.random() < 0.3 and getattr(ctx, "pid", None) == "C09":
+            # only in C09's own streams: its `check` sets aside the cases in which the second Equal Shares gets a non-empty start
+            # (OutsideQuantifier); C01 and C06 draw from this generator too and have no such guard (false alarm at seed 1, see DESIGN 10.4)
             # the SAME rule function twice with different parameters (round 8, C09-r8A: a memo keyed by the rule and the pending allocation
             # only): Equal Shares under one measure, then under another — judged only when the first run bought nothing (see OutsideQuantifier)
             other = [x for x in ("Cost_Sat", "Cardinality_Sat") if x != sat] or ["Cost_Sat"]
